@@ -13,6 +13,9 @@ fn main() {
     }
     common::quiet_panics();
     let prop = args[1].as_str();
+    if args[2] == "--depth" {
+        std::process::exit(lanes::c11::depth_child(args[3].parse().expect("depth")));
+    }
     if args[2] == "--replay" {
         let v: serde_json::Value = serde_json::from_str(&std::fs::read_to_string(&args[3]).expect("replay file")).expect("json");
         let code = match v["replay"]["engine"].as_str() {
@@ -23,6 +26,7 @@ fn main() {
             Some("c07") => lanes::c07::replay(&v),
             Some("c08") => lanes::c08::replay(&v),
             Some("c09") => lanes::c09::replay(&v),
+            Some("c11") => lanes::c11::replay(&v),
             Some("c15") => lanes::c15::replay(&v),
             Some("c20") => lanes::c20::replay(&v),
             other => {
@@ -48,6 +52,7 @@ fn main() {
         "C07" => lanes::c07::run(tier),
         "C08" => lanes::c08::run(tier),
         "C09" => lanes::c09::run(tier),
+        "C11" => lanes::c11::run(tier),
         "C15" => lanes::c15::run(tier),
         "C20" => lanes::c20::run(tier),
         _ => {
